@@ -105,6 +105,7 @@ pub enum Mut {
     AddSelf(String, String),
     EditRevealed(String, Option<String>, Option<String>), // referent, raw, encoded
     EditGroupValue(String, String, Option<String>, Option<String>),
+    AddGroupValue(String, String, String, String), // referent, extra name, raw, encoded
     EditProofRevealed(usize, String, String), // sub-proof, attr name, new encoded value inside the CL proof
     EditProofPred(usize, &'static str, i64),   // rewrite the first predicate inside sub-proof i
     AlterSub(usize),                          // change a number of sub-proof i
@@ -215,6 +216,11 @@ fn apply_legacy(doc: &mut Value, provs: &mut Vec<Prov>, agg: &mut AggProv, m: &M
                 if let Some(x) = enc {
                     e["encoded"] = json!(x);
                 }
+            }
+        }
+        Mut::AddGroupValue(r, n, raw, enc) => {
+            if let Some(g) = doc["requested_proof"]["revealed_attr_groups"].get_mut(r) {
+                g["values"][n] = json!({"raw": raw, "encoded": enc});
             }
         }
         Mut::EditProofRevealed(i, n, v) => {
@@ -644,6 +650,16 @@ fn c03_jobs(r: &mut Rng, w: &World, thorough: bool) -> Vec<VJob> {
         j.muts = vec![Mut::EditGroupValue("g".into(), n.into(), raw.map(|x: &str| x.to_string()), enc.map(|x: &str| x.to_string()))];
         jobs.push(j);
     }
+    // a group request that names an attribute twice: the honest presentation has one entry fewer than names;
+    // an added entry under a name that was never requested makes the counts agree
+    for names in [vec!["name", "name"], vec!["name", "height", "name"], vec!["name", "Name"]] {
+        let spec = ReqSpec::new(NONCE).group("g", &names);
+        let honest = job("group-duplicate-names", Fmt::Legacy, &spec, &spec, vec![pick(0, &[("g", true)], &[], None)], w);
+        jobs.push(honest.clone());
+        let mut j = honest.clone();
+        j.muts = vec![Mut::AddGroupValue("g".into(), "salary".into(), "1000000".into(), "1000000".into())];
+        jobs.push(j);
+    }
     // W3C: edit / add / remove / retype every subject entry, issuer and verification method
     for s in shapes().iter().filter(|s| s.3.is_empty()) {
         let honest = with_shape("w3c-subject", Fmt::W3C, w, s);
@@ -806,7 +822,7 @@ fn c08_jobs(_r: &mut Rng, w: &World, thorough: bool) -> Vec<VJob> {
     // fixed honest presentations (built for an interval-free request with a revocation state),
     // re-verified under requests that differ only in their intervals
     let mut jobs = vec![];
-    let bounds: Vec<Option<u64>> = vec![None, Some(99), Some(100), Some(101), Some(199), Some(200), Some(201), Some(300)];
+    let bounds: Vec<Option<u64>> = if thorough { vec![None, Some(99), Some(100), Some(101), Some(199), Some(200), Some(201), Some(300)] } else { vec![None, Some(100), Some(101), Some(199), Some(200)] };
     let mut ivs: Vec<Option<Iv>> = vec![None];
     for f in &bounds {
         for t in &bounds {
